@@ -1,0 +1,23 @@
+// Copyright The OpenTelemetry Authors
+// SPDX-License-Identifier: Apache-2.0
+
+//go:build verif
+
+package global // import "go.opentelemetry.io/otel/internal/global"
+
+import "sync"
+
+// VerifResetGlobals restores the initial (delegating) global state. It exists
+// only under the "verif" build tag so that the verification harness can
+// install an SDK many times in one process; it must not be called while other
+// goroutines use the global API.
+func VerifResetGlobals() {
+	globalErrorHandler = defaultErrorHandler()
+	globalTracer = defaultTracerValue()
+	globalPropagators = defaultPropagatorsValue()
+	globalMeterProvider = defaultMeterProvider()
+	delegateErrorHandlerOnce = sync.Once{}
+	delegateTraceOnce = sync.Once{}
+	delegateTextMapPropagatorOnce = sync.Once{}
+	delegateMeterOnce = sync.Once{}
+}
